@@ -205,6 +205,16 @@ func (p *Packer) packWalkFn(root, src, dst string, tarW *tar.Writer, meta *Meta,
 			return nil
 		}
 
+		// Inside a dereferenced directory the ignore rules apply to the path
+		// the entry gets in the archive, not to its path below the external
+		// directory being walked.
+		if src != dst {
+			subpath, err = filepath.Rel(root, strings.Replace(path, src, dst, 1))
+			if err != nil {
+				return fmt.Errorf("failed to get relative path for file %q: %w", path, err)
+			}
+		}
+
 		if r := matchIgnoreRules(subpath, ignoreRules); r.Excluded {
 			return nil
 		}
